@@ -88,7 +88,7 @@ pub struct C14;
 
 pub fn asp_cfg() -> AspCfg {
     AspCfg {
-        preds: vec![("p".into(), 1), ("q".into(), 2), ("s".into(), 0), ("_r".into(), 1), ("notp".into(), 1), ("p_1".into(), 3)],
+        preds: vec![("p".into(), 1), ("q".into(), 2), ("s".into(), 0), ("_r".into(), 1), ("notp".into(), 1), ("not_q".into(), 1), ("not_".into(), 0), ("p_1".into(), 3)],
         vars: vec!["X".into(), "Y".into(), "V1".into(), "Abc9".into()],
         syms: vec!["a".into(), "b".into(), "_c".into(), "nota".into(), "a_B1".into()],
         num_lo: -3,
@@ -732,7 +732,7 @@ pub struct C15Outputs;
 
 fn out_cfg() -> AspCfg {
     AspCfg {
-        preds: vec![("p".into(), 1), ("q".into(), 2), ("s".into(), 0), ("notp".into(), 1), ("nota".into(), 0), ("_r".into(), 1), ("existsPath".into(), 1), ("forallq".into(), 0), ("andy".into(), 1), ("orx".into(), 0)],
+        preds: vec![("p".into(), 1), ("q".into(), 2), ("s".into(), 0), ("notp".into(), 1), ("nota".into(), 0), ("not_q".into(), 1), ("_r".into(), 1), ("existsPath".into(), 1), ("forallq".into(), 0), ("andy".into(), 1), ("orx".into(), 0)],
         vars: vec!["X".into(), "Y".into(), "V1".into(), "I".into(), "Z".into(), "N0".into()],
         syms: vec!["a".into(), "_c".into(), "nota".into(), "existsY".into(), "forall_".into(), "and1".into(), "ora".into(), "and".into(), "or".into(), "forall".into(), "exists".into()],
         num_lo: -3,
@@ -820,7 +820,7 @@ pub struct C15TheoryOutputs;
 
 fn theory_cfg() -> gf::FolCfg {
     gf::FolCfg {
-        preds: vec![("p".into(), 1), ("q".into(), 1), ("r".into(), 2), ("s".into(), 0), ("notp".into(), 1), ("_r".into(), 1), ("existsp".into(), 1), ("forallq".into(), 0)],
+        preds: vec![("p".into(), 1), ("q".into(), 1), ("r".into(), 2), ("s".into(), 0), ("notp".into(), 1), ("not_q".into(), 1), ("_r".into(), 1), ("existsp".into(), 1), ("forallq".into(), 0)],
         // identifier shapes the grammar accepts: leading underscores, names that are prefixes of each other
         gvars: vec!["X".into(), "Y".into(), "_X".into(), "I".into()],
         ivars: vec!["X".into(), "I".into(), "_I".into(), "N1".into()],
@@ -1043,8 +1043,9 @@ impl Check for FolFrontEnd {
         }
         if case.via_cli && f0.free_variables().is_empty() {
             if let Some(bin) = crate::cli::anthem_bin() {
-                let r = crate::cli::run(&bin, &["translate", "--with", "gamma"], Some(&format!("{text}.\n")));
-                let expected = fol::Theory { formulas: vec![f0.clone()] }.gamma().to_string();
+                // as a user would write it: a comment before and after the formula, a second formula behind
+                let r = crate::cli::run(&bin, &["translate", "--with", "gamma"], Some(&format!("% theory\n\n{text}. % first\n\n% more\n#true.\n")));
+                let expected = fol::Theory { formulas: vec![f0.clone(), fol::Formula::AtomicFormula(fol::AtomicFormula::Truth)] }.gamma().to_string();
                 if r.code != Some(0) || r.stdout.trim() != expected.trim() {
                     return Outcome::fail(
                         "cli-differs-from-library",
